@@ -56,6 +56,11 @@ type (
 		Id    chunk.Id
 		MinTs int64
 		MaxTs int64
+		// Recs is the number of the chunk's records MinTs and MaxTs account for. A chunk which holds
+		// more records has grown since the values were taken (e.g. they come from a snapshot written
+		// before a crash), so they cannot be trusted anymore. 0, which is what a snapshot written
+		// before the field existed provides, means unknown.
+		Recs uint32
 
 		// the rwLock is used to access to the ckIndex and it guards
 		// the following fields - IdxRoot, lastRec, idxCorrupted.
@@ -141,6 +146,7 @@ func (ci *cindex) onWrite(src string, firstRec, lastRec uint32, rInfo RecordsInf
 	}
 
 	last := sc[len(sc)-1]
+	last.Recs = lastRec + 1
 	ci.lock.Unlock()
 
 	// now check whether we have to call for the index update
@@ -568,12 +574,18 @@ func (ci *cindex) syncChunks(ctx context.Context, src string, cks chunk.Chunks) 
 	newSC := chunksToSortedChunks(cks)
 
 	ci.lock.Lock()
+	var stale sortedChunks
 	if sc, ok := ci.journals[src]; ok {
+		// what is known about a chunk which has grown since, is dropped: the chunk is then
+		// handled as any chunk the index has not heard about yet
+		sc, stale = sc.dropStale(cks)
+		ci.journals[src] = sc
 		// re-assignment cause apply can re-allocate original slice
 		newSC, _ = newSC.apply(sc, true)
 	}
 	ci.lock.Unlock()
 
+	ci.dropSortedChunks(ctx, stale)
 	ci.lightFill(ctx, cks, newSC)
 
 	ci.lock.Lock()
@@ -671,6 +683,7 @@ func (ci *cindex) lightFill(ctx context.Context, cks chunk.Chunks, sc sortedChun
 			continue
 		}
 
+		c.Recs = chk.Count()
 		c.MinTs = ts1
 		c.MaxTs = ts2
 		if ts2 < ts1 {
@@ -775,6 +788,25 @@ func (sc sortedChunks) apply(sc1 sortedChunks, copyData bool) (sortedChunks, sor
 
 	// returns sc cause it could re-allocate original slice
 	return sc, removed
+}
+
+// dropStale splits sc onto the chunks, the known information can be used for, and the stale
+// ones - the chunks, which hold more records in cks than the information accounts for. Both sc and cks
+// must be sorted by the chunk Id.
+func (sc sortedChunks) dropStale(cks chunk.Chunks) (sortedChunks, sortedChunks) {
+	res := make(sortedChunks, 0, len(sc))
+	stale := make(sortedChunks, 0, 1)
+	j := 0
+	for _, c := range sc {
+		for ; j < len(cks) && cks[j].Id() < c.Id; j++ {
+		}
+		if j < len(cks) && cks[j].Id() == c.Id && cks[j].Count() > c.Recs {
+			stale = append(stale, c)
+			continue
+		}
+		res = append(res, c)
+	}
+	return res, stale
 }
 
 func (sc sortedChunks) makeRecordsInfoCopy() []RecordsInfo {
